@@ -57,7 +57,7 @@ pure voted(k Int) Int = asint(cres("Vote", k))
 pure voter(k Int) Bytes = asbytes(cres("InnerRingInvoker", k))
 
 func Cheque(id, user, amount, lockAcc)
-  ensures [C17] notaryDisabled(old(store)) ==> xcalls("Vote").len == old(xcalls("Vote")).len + 1
+  ensures [C03,C17] notaryDisabled(old(store)) ==> xcalls("Vote").len == old(xcalls("Vote")).len + 1
   // a decision that fires clears its ballot (so it takes effect exactly once)
   ensures [C17,C19] notaryDisabled(old(store)) ==> ((notifs.len == old(notifs).len + 1) == (xcalls("RemoveVotes").len == old(xcalls("RemoveVotes")).len + 1))
   ensures [C17] notaryDisabled(old(store)) && old(store).has("alphabet") ==>
@@ -66,13 +66,13 @@ func Cheque(id, user, amount, lockAcc)
   ensures [C19] xcalls == old(xcalls) || xcalls == old(xcalls) ++ [native_gas_Transfer(self(), user, amount, nil)]
   ensures [C19] notifs == old(notifs) || notifs == old(notifs) ++ [Cheque(id, user, amount, lockAcc)]
   ensures [C19] (xcalls == old(xcalls)) == (notifs == old(notifs))
-  ensures [C17,C19] !notaryDisabled(old(store)) ==> W(alphabet())
+  ensures [C03,C17,C19] !notaryDisabled(old(store)) ==> W(alphabet())
         && xcalls == old(xcalls) ++ [native_gas_Transfer(self(), user, amount, nil)]
         && notifs == old(notifs) ++ [Cheque(id, user, amount, lockAcc)] && store == old(store)
   // without Notary nothing but the ballot list is written
   ensures [C17] forall k Bytes {store.opt(k)} :: k != "ballots" ==> store.opt(k) == old(store).opt(k)
   // the vote is cast for, and a fired decision clears, the ballot of this decision id (votes for different ids never mix)
-  ensures [C17] xcalls("Vote").len == old(xcalls("Vote")).len + 1 ==> xcalls("Vote")[old(xcalls("Vote")).len] == ev_Vote(id, voter(old(xcalls("InnerRingInvoker")).len))
+  ensures [C03,C17] xcalls("Vote").len == old(xcalls("Vote")).len + 1 ==> xcalls("Vote")[old(xcalls("Vote")).len] == ev_Vote(id, voter(old(xcalls("InnerRingInvoker")).len))
   ensures [C17] xcalls("RemoveVotes").len == old(xcalls("RemoveVotes")).len || (xcalls("RemoveVotes").len == old(xcalls("RemoveVotes")).len + 1
         && xcalls("RemoveVotes")[old(xcalls("RemoveVotes")).len] == ev_RemoveVotes(id))
 
@@ -121,18 +121,18 @@ func Withdraw(user, amount)
         xcalls("native_gas_Transfer")[entry(xcalls("native_gas_Transfer")).len + j] == ev_native_gas_Transfer(user, stdacct(alphabet[j]), fee, "")
 
 func SetConfig(id, key, val)
-  ensures [C17] notaryDisabled(old(store)) ==> xcalls("Vote").len == old(xcalls("Vote")).len + 1
+  ensures [C03,C17] notaryDisabled(old(store)) ==> xcalls("Vote").len == old(xcalls("Vote")).len + 1
   // a decision that fires clears its ballot (so it takes effect exactly once)
   ensures [C17,C19] notaryDisabled(old(store)) ==> ((notifs.len == old(notifs).len + 1) == (xcalls("RemoveVotes").len == old(xcalls("RemoveVotes")).len + 1))
   ensures [C17] notaryDisabled(old(store)) && old(store).has("alphabet") ==>
         ((notifs.len == old(notifs).len + 1) == (voted(old(xcalls("Vote")).len) >= thr(old(store))))
-  ensures [C17] !notaryDisabled(old(store)) ==> W(alphabet())
+  ensures [C03,C17] !notaryDisabled(old(store)) ==> W(alphabet())
   ensures [C17] notifs == old(notifs) || notifs == old(notifs) ++ [SetConfig(id, key, val)]
   ensures [C20] notifs != old(notifs) ==> store.has("config" ++ key) && store.get("config" ++ key) == val
   ensures [C20] notifs == old(notifs) ==> store.opt("config" ++ key) == old(store).opt("config" ++ key)
   ensures [C17] forall k Bytes {store.opt(k)} :: k != "ballots" && k != "config" ++ key ==> store.opt(k) == old(store).opt(k)
   // the vote is cast for, and a fired decision clears, the ballot of this decision id (votes for different ids never mix)
-  ensures [C17] xcalls("Vote").len == old(xcalls("Vote")).len + 1 ==> xcalls("Vote")[old(xcalls("Vote")).len] == ev_Vote(id, voter(old(xcalls("InnerRingInvoker")).len))
+  ensures [C03,C17] xcalls("Vote").len == old(xcalls("Vote")).len + 1 ==> xcalls("Vote")[old(xcalls("Vote")).len] == ev_Vote(id, voter(old(xcalls("InnerRingInvoker")).len))
   ensures [C17] xcalls("RemoveVotes").len == old(xcalls("RemoveVotes")).len || (xcalls("RemoveVotes").len == old(xcalls("RemoveVotes")).len + 1
         && xcalls("RemoveVotes")[old(xcalls("RemoveVotes")).len] == ev_RemoveVotes(id))
 
@@ -151,15 +151,15 @@ func ListConfig() (r)
     invariant forall j Int {config[j]} :: 0 <= j && j < $it.pos ==> config[j] == Record{$it.key(j)[6:], store.get($it.key(j))}
 
 func AlphabetUpdate(id, args)
-  ensures [C17] notaryDisabled(old(store)) ==> xcalls("Vote").len == old(xcalls("Vote")).len + 1
+  ensures [C03,C17] notaryDisabled(old(store)) ==> xcalls("Vote").len == old(xcalls("Vote")).len + 1
   // a decision that fires clears its ballot (so it takes effect exactly once)
   ensures [C17,C19] notaryDisabled(old(store)) ==> ((notifs.len == old(notifs).len + 1) == (xcalls("RemoveVotes").len == old(xcalls("RemoveVotes")).len + 1))
   ensures [C17] notaryDisabled(old(store)) && old(store).has("alphabet") ==>
         ((notifs.len == old(notifs).len + 1) == (voted(old(xcalls("Vote")).len) >= thr(old(store))))
-  ensures [C17] !notaryDisabled(old(store)) ==> W(alphabet())
+  ensures [C03,C17] !notaryDisabled(old(store)) ==> W(alphabet())
   ensures [C17] forall k Bytes {store.opt(k)} :: k != "ballots" && k != "alphabet" ==> store.opt(k) == old(store).opt(k)
   // the vote is cast for, and a fired decision clears, the ballot of this decision id (votes for different ids never mix)
-  ensures [C17] xcalls("Vote").len == old(xcalls("Vote")).len + 1 ==> xcalls("Vote")[old(xcalls("Vote")).len] == ev_Vote(id, voter(old(xcalls("InnerRingInvoker")).len))
+  ensures [C03,C17] xcalls("Vote").len == old(xcalls("Vote")).len + 1 ==> xcalls("Vote")[old(xcalls("Vote")).len] == ev_Vote(id, voter(old(xcalls("InnerRingInvoker")).len))
   ensures [C17] xcalls("RemoveVotes").len == old(xcalls("RemoveVotes")).len || (xcalls("RemoveVotes").len == old(xcalls("RemoveVotes")).len + 1
         && xcalls("RemoveVotes")[old(xcalls("RemoveVotes")).len] == ev_RemoveVotes(id))
   loop 0
@@ -168,12 +168,12 @@ func AlphabetUpdate(id, args)
 
 // removal of a candidate: by the candidate itself at once, otherwise by the Alphabet (vote-collected without Notary)
 func InnerRingCandidateRemove(key)
-  ensures [C17] !W(key) && notaryDisabled(old(store)) ==> xcalls("Vote").len == old(xcalls("Vote")).len + 1
+  ensures [C03,C17] !W(key) && notaryDisabled(old(store)) ==> xcalls("Vote").len == old(xcalls("Vote")).len + 1
   ensures [C17] !W(key) && notaryDisabled(old(store)) && old(store).has("alphabet") && old(store).has("candidates" ++ key) ==>
         (!store.has("candidates" ++ key) == (voted(old(xcalls("Vote")).len) >= thr(old(store))))
   ensures [C17] W(key) ==> !store.has("candidates" ++ key)
   // the vote is cast for, and a fired decision clears, the ballot of this decision: sha256(key ++ "delete")
-  ensures [C17] xcalls("Vote").len == old(xcalls("Vote")).len + 1 ==> xcalls("Vote")[old(xcalls("Vote")).len] == ev_Vote(sha256(key ++ "delete"), voter(old(xcalls("InnerRingInvoker")).len))
+  ensures [C03,C17] xcalls("Vote").len == old(xcalls("Vote")).len + 1 ==> xcalls("Vote")[old(xcalls("Vote")).len] == ev_Vote(sha256(key ++ "delete"), voter(old(xcalls("InnerRingInvoker")).len))
   ensures [C17] xcalls("RemoveVotes").len == old(xcalls("RemoveVotes")).len || (xcalls("RemoveVotes").len == old(xcalls("RemoveVotes")).len + 1
         && xcalls("RemoveVotes")[old(xcalls("RemoveVotes")).len] == ev_RemoveVotes(sha256(key ++ "delete")))
   ensures [C17] forall k Bytes {store.opt(k)} :: k != "ballots" && k != "candidates" ++ key ==> store.opt(k) == old(store).opt(k)
